@@ -126,7 +126,8 @@ Rhs(sym) ==
                        (* variadic callees whose NAMED parameters are double / long / float / _Bool: the int arguments *)
                        (* must be converted to the parameter type, not merely promoted                                  *)
                        <<"vg(", I, ",", I, ",", L, ")">>, <<"vh(", I, ",", I, ",", I, ",", D, ")">>, <<"vg(c, sh,", L, ")">>,
-                       <<"vh(u, p, c, fl)">> >>
+                       <<"vh(u, p, c, fl)">>,
+                       <<"vz(", I, ")">> >>        \* variadic callee, no variable argument: the call still carries `...`
                  \o (IF NoretArm THEN << <<"(", C, "? (die(),", I, ") :", I, ")">>, <<"(", C, "?", I, ": (die(),", I, "))">> >> ELSE <<>>))
        [] sym.nt = "L" ->
             Each(LongLeaf, LAMBDA x : <<x>>)
